@@ -51,6 +51,8 @@ class LocalAdapter(Hub):
 
     # ---------------------------------------------------------------- observation
     def _enqueued(self, name, tid, script, deps):
+        if name not in self.world.model.targets and name == "foreign_task":
+            return  # a task of another client of the same pool
         key = (self.generation, tid)
         self.jobs[key] = dict(name=name, script=script, deps=list(deps), proc=None, tid=tid, gen=self.generation)
         self.by_script.setdefault(script, []).append(key)
